@@ -9,7 +9,7 @@
    re-binding an existing variable.  Each exclusion is shown necessary by a refuted statement below. *)
 From Coq Require Import List ZArith Bool.
 Import ListNotations.
-Require Import ZV.Model.Struct ZV.Proofs.StructProofs.
+Require Import ZV.Model.Struct ZV.Proofs.StructProofs ZV.Proofs.StructRefine.
 
 (* the invariant holds initially and is preserved by EVERY operation (declaration and redeclaration,
    construction, every write route, deletion, derefSet, decode) *)
@@ -62,6 +62,20 @@ Theorem C17_check_value_conforms : forall st dt v,
   value_clean st v = true -> wf_ty dt = true -> check_value st dt v = VOk -> spec_conforms st v dt = true.
 Proof. exact check_value_conforms. Qed.
 Print Assumptions C17_check_value_conforms.
+
+(* the model of the code refines the specification: whatever the code accepts, spec_step accepts, with
+   the same resulting state (what the code rejects leaves the store unchanged, above) *)
+Theorem C17_model_refines_spec : forall st o,
+  invb st = true -> clean st o = true ->
+  fst (step st o) = OK -> spec_step st o = (SOk, snd (step st o)).
+Proof. exact model_refines_spec. Qed.
+Print Assumptions C17_model_refines_spec.
+
+(* for every clean history: following the specification whenever the code accepts ends in the code's state *)
+Theorem C17_history_refines : forall h st,
+  invb st = true -> clean_run st h = true -> fold_left spec_follow h st = run st h.
+Proof. exact history_refines. Qed.
+Print Assumptions C17_history_refines.
 
 (* ---------- the unrestricted statement is FALSE of the code: witnesses (replayed on the real
    interpreter by the harness's fixed scenarios; KNOWN_FINDINGS.txt) ---------- *)
